@@ -31,13 +31,13 @@ package simple
 //@   mode int
 //@   requires s != nil && s.fragmentSize >= 1 && locsOK(ot)
 //@   ensures fragsIn(result, orig)
-//@   loop 0: invariant fragsIn(rv, orig) && (len(rv) == 0 || fresh(rv)) && 0 <= maxbegin
-//@   loop 1: invariant fragsIn(rv, orig) && (len(rv) == 0 || fresh(rv)) && 0 <= maxbegin && start == termLocation.Start && 0 <= used && start <= end && (end <= len(orig) || (used == 0 && end == start))
+//@   loop 0: invariant fragsIn(rv, orig) && (cap(rv) == 0 || fresh(rv)) && 0 <= maxbegin
+//@   loop 1: invariant fragsIn(rv, orig) && (cap(rv) == 0 || fresh(rv)) && 0 <= maxbegin && start == termLocation.Start && 0 <= used && start <= end && (end <= len(orig) || (used == 0 && end == start))
 //@   loop 1: decreases len(orig) - end
-//@   loop 2: invariant fragsIn(rv, orig) && (len(rv) == 0 || fresh(rv)) && 0 <= maxbegin && 0 <= used && 0 <= start && start <= end && (end <= len(orig) || (used == 0 && end == start))
+//@   loop 2: invariant fragsIn(rv, orig) && (cap(rv) == 0 || fresh(rv)) && 0 <= maxbegin && 0 <= used && 0 <= start && start <= end && (end <= len(orig) || (used == 0 && end == start))
 //@   loop 2: decreases start
 //@   loop 3: invariant 0 <= minend && minend <= end
-//@   loop 4: invariant fragsIn(rv, orig) && (len(rv) == 0 || fresh(rv)) && 0 <= maxbegin && 0 <= offset && 0 <= start && start <= len(orig) && 0 <= end && end <= len(orig)
+//@   loop 4: invariant fragsIn(rv, orig) && (cap(rv) == 0 || fresh(rv)) && 0 <= maxbegin && 0 <= offset && 0 <= start && start <= len(orig) && 0 <= end && end <= len(orig)
 //@   loop 4: decreases offset
 //@   loop 5: invariant 0 <= end && end <= len(orig) && 0 <= used && start == 0
 //@   loop 5: decreases len(orig) - end
